@@ -64,6 +64,14 @@ def run(v, tier, replay):
             sig = "scenario %s: accepted tube id %s rel=%s type %s carries bytes of instance %s (opened with type %s), pure=%s" % (re.sub(r"^(reuse-\d+-creators(-lossy)?).*", r"\1", name), e["id"], e["rel"], e["type"], e["inst"], c["type"] if c else "?", e["pure"])
         elif e["ev"] == "create":
             sig = "scenario %s: two live tubes of end %s got the same id %s" % (name, e["end"], e["id"])
+        elif e["ev"] == "unrelseq" and name.startswith("stray"):
+            sig = "an unreliable tube on which nothing was ever written delivered %d message(s) while small writes on a reliable tube went through a blackout" % e["extra"]
+        elif e["ev"] == "stream":
+            sig = "scenario %s: reliable stream incomplete or altered: %s of %s bytes" % (name, e["got"], e["want"])
+        elif e["ev"] == "offered":
+            sig = "a reliable tube requested while the peer's accept queue was full was offered %s times after the queue drained (its opener could write)" % e["times"]
+        elif e["ev"] == "survives":
+            sig = "after the reliable tube with the same number was closed and reaped: old unreliable tube works A->B=%s B->A=%s, messages on the wrong tube: %s" % (e["ab"], e["ba"], e["cross"])
         elif e["ev"] == "unrelseq":
             sig = "unreliable tube sharing its id with a lossy reliable tube, lagging reader: %d written, %d read, %d of them never written on that tube (intact=%s)" % (e["wrote"], e["got"], e["extra"], e["intact"])
         elif e["ev"] == "unrel":
